@@ -85,6 +85,35 @@ def simulate_witness(label, seed):
     if got.shape != want.shape or not np.allclose(got, want, rtol=1e-6, atol=1e-9):
         return dict(case, what='simulate(x) differs from the solution of the IVP with x assigned to the published parameter names (max abs diff %.3g)' % float(np.max(np.abs(got - want))),
                     expected=want.tolist(), observed=np.asarray(got).tolist())
+    # the single-point grid [0]: the initial values of the outputs
+    try:
+        got0 = np.asarray(m.simulate(x, [0.0]))
+        want0 = reference_solution(m._model, vals, m._output_names, [0.0])
+    except Exception as ex:
+        return dict(case, what='simulate on the grid [0.0] raises %r' % (ex,), expected='initial values', observed=repr(ex))
+    if got0.shape != want0.shape or not np.allclose(got0, want0, rtol=1e-6, atol=1e-9):
+        return dict(case, times=[0.0], what='simulate(x, [0.0]) returns shape %s, the solution at the requested time point has shape %s' % (got0.shape, want0.shape),
+                    expected=want0.tolist(), observed=got0.tolist())
+    # repeated calls with sensitivities on the same model: every call returns the derivatives of its own solution
+    try:
+        m.enable_sensitivities(True)
+        x_first = rng.uniform(0.4, 1.6, len(names))
+        m.simulate(x_first, [0.7, 2.2])
+        res2 = m.simulate(x, times)
+        sens2 = np.asarray(res2[1])
+        m.enable_sensitivities(False)
+        for k in range(len(names)):
+            h = 1e-5
+            xp, xm = x.copy(), x.copy()
+            xp[k] += h
+            xm[k] -= h
+            fd = (m.simulate(xp, times) - m.simulate(xm, times)) / (2 * h)
+            if sens2.shape[:2] != (len(times), len(m._output_names)) or not np.allclose(sens2[:, :, k].T, fd, rtol=2e-3, atol=2e-5):
+                return dict(case, what='second simulate call with sensitivities on the same model: column %d is not the derivative of the returned solution w.r.t. %s (max abs diff %.3g)'
+                            % (k, m.parameters()[k], float(np.max(np.abs(sens2[:, :, k].T - fd))) if sens2.shape[:2] == (len(times), len(m._output_names)) else float('nan')),
+                            expected=fd.tolist(), observed=sens2[:, :, k].T.tolist() if sens2.ndim == 3 else str(sens2.shape))
+    except Exception as ex:
+        return dict(case, what='repeated simulate with sensitivities raises %r' % (ex,), expected='sensitivities', observed=repr(ex))
     # sensitivities in published (free) parameter order, also for a subset given out of order
     pn = m.parameters()
     for subset in (None, [pn[-1], pn[0]] if len(pn) > 1 else None, 'after renaming'):
